@@ -5,6 +5,12 @@ sys.path.insert(0, os.path.join(os.path.dirname(os.path.abspath(__file__)), 'vx'
 import registry
 
 TEXT = {
+ 'C01': ('Deductive proof (Verus) that the real encoder functions (finish_encoding, encode_item, EncodedBytes::poll_next, EncodeBody::poll_frame) emit exactly frame(flag, payload) per message regardless of readiness/batching (step relation enc_step over a ghost log of the source) and that the real decoder functions hand out exactly the next frame of the concatenated input for ANY chunking (history invariant), plus spec-level lemmas parse(wire(ms)++t) == ms ++ parse(t) and parse(u++c) == parse(u) ++ parse(rest(u)++c). Unbounded in message count, sizes and chunkings.',
+         'Assumed: compression inverse (FFI), codec Encoder/Decoder contracts, bytes/http-body shims, pin-project projections. Whole-trace induction not yet mechanised: the property is carried by per-call step relations.'),
+ 'C03': ('Deductive proof (Verus) on the real encoder: header layout [flag][be32 len][payload] against an independent wire spec, flag==1 iff an encoding is applied, trailers at most once and nothing after them, client bodies never carry trailers.',
+         'Assumed: bytes shims, Status::to_header_map contract (unit status), pin-project projections. Head construction not covered in this build.'),
+ 'C06': ('Deductive proof (Verus): decoder refuses a declared length over the limit as soon as the prefix is read and before reserve() (ghost reserve budget == limit as a precondition of the BytesMut::reserve shim); finish_encoding errs iff over the limit with the right code; an encode failure never drops frames already produced (enc_step).',
+         'Assumed: bytes shims; default limits taken from the real constants.'),
  'C07': ('Contract-based deductive proof (Verus) on the verbatim bodies of StreamingInner::{decode_chunk,poll_frame,response} and Streaming::{decode_chunk,poll_next}: no panic (every get_u8/get_u32/unwrap/panic! precondition discharged), every yielded message is the next frame of the received bytes for ANY chunking (history invariant over a ghost log of the body), the first error is final. All inputs, all iterations, no bound.',
          'Assumed: bytes::BytesMut / http_body::Frame contracts (prelude A-bytes-*, A-httpbody-*), decompress() contract (flate2/zstd FFI), the codec Decoder contract, infer_grpc_status contract (proved in unit status). Termination under an endless body is not claimed.'),
 }
